@@ -701,6 +701,17 @@ fn main() {
             Err(p) => { let (k, wh, c) = cv("write-panics", format!("{tag}: writing through a valid view panicked: {p}")); rep.violation(k, wh, c); }
         }
     }
+    // ... and views with cells whose linear index does not fit in u32, the type all of the library's index arithmetic is
+    // done in, must be rejected by the constructors even over (zero-sized) data that could hold them: accepted, they could
+    // only panic or wrap on access
+    for (w, h, stride) in [(3u32, 3u32, 0x8000_0000u32), (65536, 65537, 65536), (2, 3, 0xFFFF_FFFF), (0x8000_0000, 3, 0x8000_0000)] {
+        rep.eval();
+        let need = (h as u64 - 1) * stride as u64 + w as u64;
+        let mut data: Vec<()> = vec![(); need as usize];
+        let tag = format!("Direct(zero-sized cells) {w}x{h} stride={stride}");
+        let (a, b) = (caught(|| { Slice2::new((w, h), stride, &data[..]); }).is_ok(), caught(|| { MutSlice2::new((w, h), stride, &mut data[..]); }).is_ok());
+        if a || b { rep.violation(format!("ctor-accepts-unaddressable|{tag}"), format!("{tag}: needs {need} cells, i.e. indices beyond u32::MAX, yet was constructed (Slice2 accepted={a}, MutSlice2 accepted={b})"), obj! {"root" => tag.clone(), "contents" => "[]", "recipe" => Vec::<String>::new(), "clause" => "ctor-accepts-unaddressable", "detail" => ""}); } else { rep.h("unaddressable-view-rejected"); }
+    }
     for w in 0..=maxd { for h in 0..=maxd { check_ctors(w, h, &mut rep); } }
     // BFS by levels; each level expanded in parallel
     let mut seen: HashMap<State, (Option<usize>, String)> = HashMap::new();
